@@ -205,7 +205,9 @@ fn main() {
             rep.finish()
         }
         "C11" => {
-            umverif::c11::run(&mut rep);
+            if std::env::var("VERIF_C11_ONLY_TIMEOUT").is_err() {
+                umverif::c11::run(&mut rep);
+            }
             umverif::c11::run_timeout_leg(&mut rep, if thorough { 1200 } else { 48 });
             rep.floor("timeout_leg_scenarios", if thorough { 500 } else { 20 });
             rep.floor("timeout_leg_commands_queued_during_blocking", 20);
